@@ -239,12 +239,41 @@ impl Ord for Number {
                     l.cmp(&(*r as u64))
                 }
             }
-            (_, _) => {
-                let l = OrderedFloat(self.as_f64().unwrap());
-                let r = OrderedFloat(other.as_f64().unwrap());
-                l.cmp(&r)
+            (Number::Int64(l), Number::Float64(r)) => cmp_int_float(*l as i128, *r),
+            (Number::UInt64(l), Number::Float64(r)) => cmp_int_float(*l as i128, *r),
+            (Number::Float64(l), Number::Int64(r)) => cmp_int_float(*r as i128, *l).reverse(),
+            (Number::Float64(l), Number::UInt64(r)) => cmp_int_float(*r as i128, *l).reverse(),
+            (Number::Float64(l), Number::Float64(r)) => OrderedFloat(*l).cmp(&OrderedFloat(*r)),
+        }
+    }
+}
+
+// Compare an integer with a float by their exact mathematical values,
+// NaN is greater than every other number.
+fn cmp_int_float(i: i128, f: f64) -> Ordering {
+    if f.is_nan() {
+        return Ordering::Less;
+    }
+    // 2^64 and -2^63 are exactly representable, every i64 and u64 lies in [-2^63, 2^64).
+    if f >= 18446744073709551616.0 {
+        return Ordering::Less;
+    }
+    if f < -9223372036854775808.0 {
+        return Ordering::Greater;
+    }
+    // the integral part of `f` now fits in i128 exactly
+    let t = f.trunc();
+    match i.cmp(&(t as i128)) {
+        Ordering::Equal => {
+            if f > t {
+                Ordering::Less
+            } else if f < t {
+                Ordering::Greater
+            } else {
+                Ordering::Equal
             }
         }
+        ord => ord,
     }
 }
 
